@@ -145,9 +145,9 @@ def uses(name):
     return 'abk'
 
 
-def h_range(ti: int, si: int, ri: int, m: int, sel: int, c: Optional[int], d: Optional[int], top: bool):
+def h_range(ti: int, si: int, ri: int, m: int, sel: int, c: Optional[int], d: Optional[int], top: bool, allsets=False):
     """Methods taking a range: apply/remove_formatting, clip, slicing, find_settings."""
-    s = receiver(ti, si, ri)
+    s = receiver(ti, si, ri, SETS if allsets else SETS_M)
     if s is None:
         return None
     name = choose(m, ('apply_formatting', 'remove_formatting', 'clip', '__getitem__', 'find_settings'))
@@ -424,7 +424,7 @@ def h_ctor(src: int, ti: int, si: int, ri: int, k: int):
 BOUNDS = {
     'quick': 'receivers: 4 texts x 2 settings lists (red; stacked conflicting + unknown verbatim; constructor forms: 4 lists) on 4 ranges (first char, whole, last char, inner); range methods with ALL integer bounds / None; index methods with ALL integers; '
              'all other shared methods (by introspection) with arguments from a 5-string palette and integers -1..3; constructor: 3 source kinds x 4 settings lists',
-    'thorough': 'same (the product is exhausted in quick); thorough adds nothing but the larger budgets',
+    'thorough': 'quick + range methods on the 4th text with the remaining receiver settings',
 }
 OUTSIDE = 'receivers and arguments outside the palettes (AnsiStr construction forces realisation of the rendering, so texts are enumerated)'
 ASSUMPTIONS = ['AnsiStr.partition/rpartition may return a list where AnsiString returns a tuple ("list/tuple of AnsiStr")']
@@ -454,5 +454,10 @@ def obligations(tier):
         if 'k' not in u:
             f['k'] = 0
         obs.append(Ob('method/%s' % nm, h_simple, f, need=('method',), budget=900, bounds='shared method %s, 5 texts' % nm, kinds=KINDS))
+    if tier != 'quick':
+        for m in range(5):
+            for si in (1, 3):
+                obs.append(Ob('range/m%d/t3/s%d' % (m, si), h_range, dict(m=m, ti=3, si=si, allsets=True), need=('range-method',), budget=3000,
+                              bounds='text %r, receiver settings %r' % (TEXTS[3], SETS[si]), kinds=KINDS))
     obs.append(Ob('ctor', h_ctor, {}, need=('ctor',), budget=900, bounds='3 sources x 4 settings lists x receivers', kinds=KINDS))
     return obs
